@@ -10,7 +10,7 @@ from ..cfg import NORMAL_KINDS, Label, Node, strip_cast
 from ..exc import CANCELLED, EXCEPTION, KEYERROR
 from ..model import AnalysisError, FuncInfo
 from ..queries import between, can_follow, count_paths, reach, reach_back
-from .lib import (CAN, CREATE_TASK, END, GATHER, GROUPS, META_CAN, META_RUN, NUM, REGISTRIES, RUN, SLOT, Ctx,
+from .lib import (surplus_forwarded_only, CAN, CREATE_TASK, END, GATHER, GROUPS, META_CAN, META_RUN, NUM, REGISTRIES, RUN, SLOT, Ctx,
                   dominated_by_completion, field_of, path_text)
 
 
@@ -28,7 +28,13 @@ def coro_arg(call: ast.Call) -> Optional[ast.expr]:
 def create_sites(ctx: Ctx, funcs=None) -> List[Tuple[Node, Optional[ast.expr], Optional[List[FuncInfo]]]]:
     """(site, coroutine expression, package coroutine functions it calls or None)"""
     out = []
-    for n in ctx.distinct_sites(ctx.all_nodes(lambda n: ctx.is_ext_call(n, *CREATE_TASK), funcs)):
+    seen_ = set()
+    for n in ctx.all_nodes(lambda n: ctx.is_ext_call(n, *CREATE_TASK), funcs):
+        # one site per call expression and frame instance (a helper spliced into several callers creates a task for each of them)
+        k_ = (n.root.qual if n.root is not None else n.func.qual, n.func.qual, id(n.ast), id(n.env))
+        if k_ in seen_:
+            continue
+        seen_.add(k_)
         arg = coro_arg(n.ast)
         if arg is not None:
             arg = ctx.vals.resolve(n.func, arg)  # `coro = self._spawner(...); create_task(coro)`
@@ -168,10 +174,15 @@ def r_user_coroutine_uses(ctx: Ctx, rule: str):
                             ok = True
                         elif id(call) in ctx.an.spliced_at:
                             t = ctx.an.spliced_at[id(call)]
-                            bound = {pn for pn, (_, arg, _e) in bind_args(call, t, f, None).items() if arg is node}
+                            benv = bind_args(call, t, f, None)
+                            bound = {pn for pn, (_, arg, _e) in benv.items() if arg is node}
+                            surplus = {pn for pn, (_, arg, _e) in benv.items() if isinstance(arg, ast.Tuple) and any(x is node for x in arg.elts)
+                                       or isinstance(arg, ast.Dict) and any(x is node for x in arg.values)}
                             if bound:
                                 check(t, bound)
                                 ok = True
+                            elif surplus and surplus_forwarded_only(ctx, t, benv, surplus, ("_start_task",)):
+                                ok = True  # one of the helper's *args, only forwarded to the `_start_task` it was handed
                         what = cal.name
                 elif isinstance(par, ast.Attribute) and par.attr == "close":
                     ok = True
@@ -1008,6 +1019,10 @@ def param_role(f: FuncInfo, pname: str) -> Optional[str]:
 
 
 def expr_role(ctx: Ctx, f: FuncInfo, e: Optional[ast.AST], _depth: int = 0) -> Optional[str]:
+    if e is not None and id(e) in ctx.an.syn_arg_frame and _depth == 0:
+        # an argument of a stand-in call, written in another frame: judged where it was written (through helper parameters)
+        fr_, env_ = ctx.an.syn_arg_frame[id(e)]
+        f, _env2, e = ctx.vals.trace(fr_, env_, e)
     sc = ctx.an.scope(f)
     if e is None or _depth > 4:
         return None
